@@ -2,7 +2,7 @@
 # usage: seeded_try.sh <seed-name> <property> [tier]   (runs the check against a scratch worktree with the seed applied)
 # The scratch worktree is /tmp/wt-seedtry (created from /repo HEAD when missing, removed by the caller when done).
 name=$1; prop=$2; tier=${3:-quick}
-wt=/tmp/wt-seedtry
+wt=${SEED_WT:-/tmp/wt-seedtry}
 if [ ! -d $wt ]; then git -C /repo worktree add --detach $wt HEAD >/dev/null 2>&1 || exit 2; fi
 cd $wt && git checkout -q -- . && git checkout -q --detach $(git -C /repo rev-parse HEAD) || exit 2
 git apply /verif/seeded/$name/patch.diff || { echo "$name: patch does not apply"; exit 2; }
